@@ -23,7 +23,7 @@ import (
 	"github.com/flamego/flamego/verifharness/internal/rt"
 )
 
-const rule = "round = an application with 0..7 separately added middleware, routes of every kind (static via the shortcut, optional static, regex with user groups, placeholder, match-all with capture, header-constrained, named routes whose handlers build URLs, a middleware that maps a per-request token read from a header, handlers that receive it by type and an application service through an interface it implements), built twice: instance A serves every distinct request alone (expected responses), instance B is fresh (nothing lazily cached yet) and is hit by 2..16 goroutines released together, each with its own list of 5..40 requests and runtime.Gosched() yields inside the handlers, under GOMAXPROCS in {2,4,16}. " +
+const rule = "round = an application with 0..7 separately added middleware, routes of every kind (static via the shortcut, optional static, regex with user groups, placeholder, match-all with capture, header-constrained, named routes whose handlers build URLs, Recovery and Renderer middleware, a route that renders JSON through the request-scoped Render service, a route whose handler panics, a middleware that maps a per-request token read from a header, handlers that receive it by type and an application service through an interface it implements), built twice: instance A serves every distinct request alone (expected responses), instance B is fresh (nothing lazily cached yet) and is hit by 2..16 goroutines released together, each with its own list of 5..40 requests and runtime.Gosched() yields inside the handlers, under GOMAXPROCS in {2,4,16}. " +
 	"Oracle: (1) every concurrent response (status and body = route marker + echoed parameters + token + built URL) equals A's response for the same request; (2) the Go race detector reports nothing (binary built with -race, GORACE=halt_on_error=1; the driver turns a report into a violation). " +
 	"non-trivial = a round in which >= 2 goroutines start with the same dynamic named route (the first use of lazily cached state is contended) and >= 3 kinds of route are hit; distinct by round text"
 
@@ -66,6 +66,7 @@ func (s *svc) Name() string { return s.name }
 // build makes one application; both instances of a round are built by the same code.
 func build(r Round) *flamego.Flame {
 	f := flamego.NewWithLogger(io.Discard)
+	f.Use(flamego.Recovery(), flamego.Renderer(flamego.RenderOptions{JSONIndent: " "}))
 	f.Map(&svc{"svc-A"})
 	for i := 0; i < r.Middleware; i++ {
 		f.Use(func(c flamego.Context) {}) // separate calls: the middleware slice may end up with spare capacity
@@ -124,6 +125,16 @@ func build(r Round) *flamego.Flame {
 	f.Group("/g/{org}", func() {
 		f.Combo("/r/{repo}", func(c flamego.Context) { yield() }).Get(echo("combo-get", "")...).Post(echo("combo-post", "")...)
 	}, func(c flamego.Context) { yield() })
+	// a route that renders through the request-scoped Render service and one
+	// whose handler panics under Recovery (production mode: the body is constant)
+	f.Get("/render/{what}", func(c flamego.Context) { yield() }, func(c flamego.Context, r flamego.Render, t *token) {
+		yield()
+		r.JSON(http.StatusAccepted, map[string]string{"what": c.Param("what"), "token": t.v})
+	})
+	f.Get("/panic/{why}", func(c flamego.Context) {
+		yield()
+		panic("boom " + c.Param("why"))
+	})
 	f.NotFound(func(c flamego.Context, t *token) string {
 		c.ResponseWriter().WriteHeader(http.StatusNotFound)
 		return "notfound|token=" + t.v
@@ -157,6 +168,8 @@ func kindOf(body string) string {
 func checkRound(r Round) (out evid.Outcome) {
 	old := runtime.GOMAXPROCS(r.Procs)
 	defer runtime.GOMAXPROCS(old)
+	flamego.SetEnv(flamego.EnvTypeProd) // the recovery page is then the same for every panic
+	defer flamego.SetEnv(flamego.EnvTypeDev)
 	a, b := build(r), build(r)
 	want := make([]resp, len(r.Pool))
 	for i, q := range r.Pool {
@@ -271,7 +284,7 @@ func genReq(t *rapid.T, n int) Req {
 		q.P = "/g/" + s() + "/r/" + s()
 		q.M = []string{"GET", "POST"}[rapid.IntRange(0, 1).Draw(t, "cm")]
 	case 12:
-		q.P = "/nosuch/" + s()
+		q.P = []string{"/nosuch/", "/render/", "/render/", "/panic/"}[rapid.IntRange(0, 3).Draw(t, "rp")] + s()
 	case 13:
 		q.P = "//users//" + s()
 	default:
